@@ -51,6 +51,7 @@ def strategy(kind):
         if kind == 'iterator':
             # the same reads through the plain Fragment / Molecule classes (assignment by mapping coordinates)
             run['plain'] = draw(st.sampled_from([False, False, False, True]))
+            run['peek'] = draw(st.sampled_from([None, None, None, 0, 1, 3]))
         if kind == 'tagger':
             run['history'] = draw(st.sampled_from(['fresh', 'retag', 'preset']))
             run['preset_seed'] = draw(st.integers(0, 10 ** 6))
@@ -153,9 +154,21 @@ def eval_iterator(case):
                                                   fragment_class_args=dict(fargs, umi_hamming_distance=run['prior_hamming'])):
                             pass
                 with pysam.AlignmentFile(bam) as f:
-                    for m in MoleculeIterator(f, molecule_class=mc, fragment_class=fc, fragment_class_args=fargs,
-                                              molecule_class_args=margs, yield_invalid=False, yield_overflow=True,
-                                              check_eject_every=run.get('eject', 10000)):
+                    kw = dict(molecule_class=mc, fragment_class=fc, fragment_class_args=fargs, molecule_class_args=margs,
+                              yield_invalid=False, yield_overflow=True, check_eject_every=run.get('eject', 10000))
+                    if run.get('peek') is None:
+                        passes = [MoleculeIterator(f, **kw)]
+                    else:
+                        # one iterator object per contig, first looked at (the first `peek` molecules, then abandoned), then
+                        # iterated from the start again: the second pass is what counts
+                        passes = []
+                        for cname, _ in contigs:
+                            it = MoleculeIterator(f, contig=cname, **kw)
+                            for i, m in enumerate(it):
+                                if i >= run['peek']:
+                                    break
+                            passes.append(it)
+                    for m in itertools.chain.from_iterable(passes):
                         g = sorted({serial_of(r.query_name, spec['naming']) for fr in m for r in fr if r is not None})
                         is_over = any(r.has_tag('RR') and r.get_tag('RR') == 'overflow' for fr in m for r in fr if r is not None)
                         (overflow if is_over else mols).append(g)
